@@ -837,7 +837,7 @@ func run(c *core.Ctx) {
 	parallel(W, func(w int) {
 		r := core.RNG(fmt.Sprintf("c03/mixed/%d", w))
 		mixed(res, r, mixedRuns/W+1)
-		sessionEvents(res, r, 4)
+		sessionEvents(res, r, 6)
 	})
 
 	// Concurrent deliveries + linearizability, plain build.
@@ -1004,7 +1004,9 @@ func sessionEvents(res *core.Result, r *rand.Rand, runs int) {
 		ok := true
 		// traffic in both directions, both classes
 		for i := 0; i < 6 && ok; i++ {
-			ok = first(p.a, p.b, p.ab, p.ba, frame.RouterCtrl, fmt.Sprintf("A->B priority #%d", i)) &&
+			ok = first(p.a, p.b, p.ab, p.ba, frame.RouterPing, fmt.Sprintf("A->B signed #%d", i)) &&
+				first(p.b, p.a, p.ba, p.ab, frame.RouterPing, fmt.Sprintf("B->A signed #%d", i)) &&
+				first(p.a, p.b, p.ab, p.ba, frame.RouterCtrl, fmt.Sprintf("A->B priority #%d", i)) &&
 				first(p.a, p.b, p.ab, p.ba, frame.SessionData, fmt.Sprintf("A->B regular #%d", i)) &&
 				first(p.b, p.a, p.ba, p.ab, frame.RouterCtrl, fmt.Sprintf("B->A priority #%d", i)) &&
 				first(p.b, p.a, p.ba, p.ab, frame.SessionData, fmt.Sprintf("B->A regular #%d", i))
@@ -1012,7 +1014,29 @@ func sessionEvents(res *core.Result, r *rand.Rand, runs int) {
 		if !ok {
 			return
 		}
-		switch run % 2 {
+		switch run % 3 {
+		case 2:
+			// both ends install new end-to-end keys (a completed re-key: Session.SetEncryptionSession)
+			encA, errA := p.origA.DeriveSessionFromKX(true, fmt.Sprintf("c03 rekey %d", run))
+			encB, errB := p.origB.DeriveSessionFromKX(false, fmt.Sprintf("c03 rekey %d", run))
+			if errA != nil || errB != nil {
+				res.Inconcl("re-key: %v %v", errA, errB)
+				return
+			}
+			p.ab.SetEncryptionSession(encA)
+			p.ba.SetEncryptionSession(encB)
+			if !replayAll("after both ends installed new end-to-end keys") {
+				return
+			}
+			for i := 0; i < 3 && ok; i++ {
+				ok = first(p.a, p.b, p.ab, p.ba, frame.RouterPing, fmt.Sprintf("A->B signed after re-key #%d", i)) &&
+					first(p.a, p.b, p.ab, p.ba, frame.SessionData, fmt.Sprintf("A->B regular after re-key #%d", i)) &&
+					first(p.b, p.a, p.ba, p.ab, frame.RouterCtrl, fmt.Sprintf("B->A priority after re-key #%d", i))
+			}
+			if !ok || !replayAll("after traffic under the new keys") {
+				return
+			}
+			res.Count("session_event_histories:re-key", 1)
 		case 0:
 			// A's regular counter wraps
 			h := &state.EncryptionSessionTestHelper{EncryptionSession: p.ab.Encryption()}
@@ -1054,6 +1078,6 @@ func sessionEvents(res *core.Result, r *rand.Rand, runs int) {
 			res.Count("session_event_histories:failed-key-setup", 1)
 			res.Count("hostile_key_setups_refused", int64(failed))
 		}
-		res.Case(fmt.Sprintf("session-events|%d|%d", run%2, run), true)
+		res.Case(fmt.Sprintf("session-events|%d|%d", run%3, run), true)
 	}
 }
